@@ -157,6 +157,18 @@ def write_node(root, node):
     elif t == 'p':
         os.makedirs(os.path.dirname(path), exist_ok=True)
         os.mkfifo(path)
+    elif t == 's':
+        import socket
+        os.makedirs(os.path.dirname(path), exist_ok=True)
+        s = socket.socket(socket.AF_UNIX)
+        cwd = os.getcwd()
+        try:
+            # sun_path is short: bind relative to the directory
+            os.chdir(os.path.dirname(path))
+            s.bind(os.path.basename(path))
+        finally:
+            os.chdir(cwd)
+            s.close()
     else:
         raise ValueError(t)
 
@@ -177,7 +189,7 @@ def visible(spec):
             out[p] = ('d',)
         elif t == 'f':
             out[p] = ('f', content_bytes(n), n.get('m', BASE_MTIME))
-        elif t == 'p':
+        elif t in ('p', 's'):
             out[p] = ('p',)
         elif t == 'l':
             if n['k'] == 'x':
